@@ -117,7 +117,12 @@ class Ctx:
             open(mf, "w").write(text)
             shutil.copy(os.path.join(REPO, "go.sum"), os.path.join(self.work, "alt.sum"))
             modfile = ["-modfile=" + mf]
-        cmd = ["go", "build"] + modfile + race + ["-tags", alltags, "-o", out, "./cmd/harness"]
+        cover = []
+        if os.environ.get("VERIF_COVER") and not race:
+            # developer aid (tools/coverage): which gonum code do the replays / recorders execute at all?
+            # (GOCOVERDIR must be exported by the caller; the harness processes inherit it)
+            cover = ["-cover", "-coverpkg=gonum.org/v1/gonum/..."]
+        cmd = ["go", "build"] + modfile + race + cover + ["-tags", alltags, "-o", out, "./cmd/harness"]
         rc, o, dt = sh(cmd, 900, cwd=HARNESS, env=GOENV)
         if rc != 0:
             raise Undecided("harness build failed (tags=%s):\n%s" % (alltags, o[-3000:]))
